@@ -364,7 +364,7 @@ func runDispSeq(c *Ctx, in map[string]string) {
 			model = append(model, "e1:"+hx("PRIVMSG"))
 			d.srv.SetWriteDeadline(time.Now().Add(3 * time.Second))
 			if _, err := d.srv.Write([]byte(fmt.Sprintf(":me!me@my.host NICK newme\r\n:newme!me@my.host PRIVMSG #c :text n=%d\r\n", nev))); err != nil || !d.barrier(fmt.Sprintf("ne%d", nev)) {
-				c.R.Mismatch("disp.stalled", hin, fmt.Sprintf("no PONG after event %d", nev), "")
+				c.R.Violation("dispseq.stalled", hin, fmt.Sprintf("no PONG after event %d: the client stopped dispatching events", nev), "", "every event is delivered; with a recover function a panicking handler does not stop later events from being delivered")
 				return
 			}
 			markDeadline(nev, time.Now())
@@ -391,7 +391,7 @@ func runDispSeq(c *Ctx, in map[string]string) {
 				nev++
 			}
 			if !d.barrier(fmt.Sprintf("bb%d", first)) {
-				c.R.Mismatch("disp.stalled", hin, fmt.Sprintf("no PONG after burst at %d", first), "")
+				c.R.Violation("dispseq.stalled", hin, fmt.Sprintf("no PONG after the burst starting at event %d: the client stopped dispatching events", first), "", "every event is delivered; with a recover function a panicking handler does not stop later events from being delivered")
 				return
 			}
 			for n := first; n < nev; n++ {
@@ -417,7 +417,7 @@ func runDispSeq(c *Ctx, in map[string]string) {
 			}
 			model = append(model, "e"+echoFlag+":"+hx(f[1]))
 			if !d.send(fmt.Sprintf("%s %s %s :text n=%d", src, f[1], target, nev)) || !d.barrier(fmt.Sprintf("b%d", nev)) {
-				c.R.Mismatch("disp.stalled", hin, fmt.Sprintf("no PONG after event %d", nev), "")
+				c.R.Violation("dispseq.stalled", hin, fmt.Sprintf("no PONG after event %d: the client stopped dispatching events", nev), "", "every event is delivered; with a recover function a panicking handler does not stop later events from being delivered")
 				return
 			}
 			markDeadline(nev, time.Now())
@@ -699,7 +699,7 @@ func runDispConc(c *Ctx, in map[string]string) {
 	}
 	wg.Wait()
 	if !d.barrier("end") {
-		c.R.Mismatch("disp.stalled", hin, "no PONG after the stream", "")
+		c.R.Violation("dispconc.stalled", hin, "no PONG after the stream: the client stopped dispatching events", "", "every event is delivered")
 		return
 	}
 	for i := 0; i < 500; i++ { // background invocations of the stable handlers
